@@ -778,7 +778,7 @@ def run(chk):
         "every varying operand (loop-carried phi or fill-level field) is advanced by the result; every consumer of "
         "sqfs_istream_t advances by an amount derived from what get_buffered_data delivered and tests its result; the "
         "archive layer treats end of input inside a record as an error and compares every read count with the "
-        "requested size (T1/T2). Equality of the outputs under all chunkings is value-level and not decided. A function that returns the transfer count of a single system call is a chunk primitive: the loop, exit and progress obligations are checked at its callers.")
+        "requested size (T1/T2). Equality of the outputs under all chunkings is value-level and not decided. A function that returns the transfer count of a single system call is a chunk primitive: the loop, exit and progress obligations are checked at its callers. K10-endpos: the size a write_at implementation keeps for get_size accounts for every transfer on the path; K10-reposition: no seek that may be relative is repeated on EINTR; K10-chunkcut: what the line reader copies out of a chunk depends on the position of the line feed alone; a single attempt whose incomplete outcomes are handed, advanced, to a looping helper is accepted by K10-loop.")
     chk.assumptions = ["POSIX semantics of short counts and EINTR"]
     progs = {t: load_program(t) for t in ("gensquashfs", "tar2sqfs", "sqfs2tar", "rdsquashfs", "sqfsdiff")}
     confinement(chk, progs)
